@@ -1,5 +1,5 @@
 ---- MODULE MC_Backup ----
-EXTENDS Backup, Json, TLCExt
+EXTENDS Backup, Json, TLCExt, IOUtils, SequencesExt
 \* file descriptions: dir 0 root, 1 "code" (excluded), 2 "sub-01", 3 "sub-02/eeg"
 Tks == {"", "go", "stop"}
 FileRecs == {r \in [dir : 0..3, tk : Tks, us : BOOLEAN, ev : BOOLEAN] : r.tk = "" => ~r.us}
@@ -20,16 +20,20 @@ TreesH == TreesOver(HistRecs, 2, {<<>>, <<"go">>})
 Trees2 == TreesOver(FileRecs, 2, {<<>>, <<"go">>})
 Trees1 == TreesOver(FileRecs, 1, {<<>>, <<"go">>})
 Trees3 == TreesOver(SmallRecs, 3, {<<>>, <<"go">>})
-TreesGen == TreesOver(FileRecs, 3, {<<>>, <<>>, <<"go">>, <<"stop">>})
+TreesGen == TreesOver(FileRecs, 3, {<<>>, <<"go">>, <<"stop">>})
 TaskArgsDef == {<<>>, <<"go">>, <<"stop">>, <<"go", "stop">>}
 TaskArgsSmall == {<<>>, <<"go">>}
 Ops1 == {1}
 Ops2 == {1, 2}
 
-Quiet == pc = "idle" /\ creates > 0
+\* generation runs take every TREE_STRIDE-th tree of the family, starting at TREE_OFFSET (rotates with the seed)
+Picked(S) == LET L == SetToSeq(S) st == atoi(IOEnv.TREE_STRIDE) off == atoi(IOEnv.TREE_OFFSET)
+             IN {L[j] : j \in {i \in 1..Len(L) : i % st = off}}
+TreesPick2 == Picked(Trees2)
+TreesPick3 == Picked(TreesGen)
 \* one JSON line per finished behaviour (generation runs; hist is part of the state there)
 EmitCrash == (pc = "idle" /\ creates = MaxCreate) =>
                  PrintT("@@EMIT@@" \o ToJson([tree |-> tree, hist |-> hist]))
-EmitHist == (pc = "idle" /\ creates > 0 /\ nops = MaxHist) =>
+EmitHist == (pc = "idle" /\ creates = MaxCreate /\ nops = MaxHist) =>
                  PrintT("@@EMIT@@" \o ToJson([tree |-> tree, hist |-> hist]))
 ====
